@@ -324,9 +324,12 @@ def run(ctx):
                 U[i, j] = SQ()
         B = sym_quat("b", (n, k))
 
-        def chooser(interp, node, cond):
+        gates = []
+
+        def chooser(interp, node, cond, gates=gates):
             parts = cond_parts(cond)
             if parts and parts[0] == "gt":
+                gates.append(parts)
                 return True      # diagonal modulus > tol
             if parts and parts[0] == "eq":
                 return False     # |q|^2 == 0 : no
@@ -340,6 +343,13 @@ def run(ctx):
             ctx.ob("C16.D3.substitution", tag, False, f"fails in-domain: {out}", where=f_ut.where, construct="UtriangleQsparse fails",
                    loc=f_ut.loc())
             continue
+        # the singularity gate in front of the back substitution must test the modulus of the last pivot U[n-1,n-1] (all four
+        # components): a gate that misses a component treats a non-singular pivot along that axis as zero and skips the solve
+        n2 = U[n - 1, n - 1].norm2()
+        okg = bool(gates) and any(P(g[1]).same(n2.sqrt()) or P(g[1]).same(n2) for g in gates[:1])
+        ctx.ob("C16.D3.gate", f"{tag}: singularity gate tests |U[n-1,n-1]|", okg,
+               f"the gate compares {short(gates[0][1]) if gates else 'nothing'} with the tolerance, not the modulus of the last pivot",
+               where=f_ut.where, construct="UtriangleQsparse: singularity gate is not the modulus of the last pivot", loc=f_ut.loc())
         X = quat_from_planes(list(out))
         ok = False
         for reg in [0] + _tiny():
